@@ -7,12 +7,13 @@ Open Scope Z_scope.
 Section ExecProps.
 Variable limit : nat.
 Variable tau : Z.
+Variable errdelay : Z.
 
 (* C11: every item gets exactly one outcome *)
-Lemma schedule_length st its : length (schedule limit tau st its) = length its.
+Lemma schedule_length st its : length (schedule limit tau errdelay st its) = length its.
 Proof.
   revert st. induction its as [|it r IH]; intros st; cbn [schedule]; [reflexivity|].
-  destruct (intake limit tau st it) as [st' d]. cbn. now rewrite IH.
+  destruct (intake limit tau errdelay st it) as [st' d]. cbn. now rewrite IH.
 Qed.
 
 Lemma count_partition ds : (count_out OOk ds + count_out OFailed ds + count_out OTimedOut ds = length ds)%nat.
@@ -21,24 +22,24 @@ Proof.
 Qed.
 
 Theorem one_outcome_per_item its :
-  let ds := run limit tau its in
+  let ds := run limit tau errdelay its in
   (count_out OOk ds + count_out OFailed ds + count_out OTimedOut ds = length its)%nat.
 Proof. cbn zeta. rewrite count_partition. apply schedule_length. Qed.
 
 (* the outcome of item i depends on that item alone: a failure or a timeout of another item changes nothing for it *)
-Lemma schedule_outcomes st its : map iout (schedule limit tau st its) = map (fun it => snd (eff tau it)) its.
+Lemma schedule_outcomes st its : map iout (schedule limit tau errdelay st its) = map (fun it => snd (eff tau errdelay it)) its.
 Proof.
   revert st. induction its as [|it r IH]; intros st; cbn [schedule map]; [reflexivity|].
   destruct st as [now fl]. unfold intake.
   destruct (if (length fl <? limit)%nat then (now, fl) else match pop_min fl with Some (m, r0) => (Z.max now m, r0) | None => (now, fl) end) as [now' fl'].
-  destruct (eff tau it) as [d o] eqn:E. cbn [map iout snd]. now rewrite IH.
+  destruct (eff tau errdelay it) as [d o] eqn:E. cbn [map iout snd]. now rewrite IH.
 Qed.
 
-Theorem outcome_is_local its : map iout (run limit tau its) = map (fun it => snd (eff tau it)) its.
+Theorem outcome_is_local its : map iout (run limit tau errdelay its) = map (fun it => snd (eff tau errdelay it)) its.
 Proof. apply schedule_outcomes. Qed.
 
 (* a timed-out item is one that takes longer than the configured timeout, and it is cut at the timeout *)
-Lemma eff_spec it : eff tau it = if (0 <? tau) && (tau <? dur it) then (tau, OTimedOut) else (dur it, if fails it then OFailed else OOk).
+Lemma eff_spec it : eff tau errdelay it = if (0 <? tau) && (tau <? dur it) then (tau, OTimedOut) else if fails it then (dur it + errdelay, OFailed) else (dur it, OOk).
 Proof. reflexivity. Qed.
 
 (* C11: never more than `limit` items in flight: the executor's in-flight set never grows beyond the limit *)
@@ -51,24 +52,24 @@ Proof.
   - inversion H; subst. destruct l; [reflexivity|]. cbn in E. destruct (pop_min l) as [[? ?]|]; [destruct (z <=? z0)|]; discriminate.
 Qed.
 
-Lemma intake_bound now fl it : (length fl <= limit)%nat -> (length (snd (fst (intake limit tau (now, fl) it))) <= limit)%nat.
+Lemma intake_bound now fl it : (length fl <= limit)%nat -> (length (snd (fst (intake limit tau errdelay (now, fl) it))) <= limit)%nat.
 Proof.
   intros H. unfold intake. destruct (Nat.ltb_spec (length fl) limit) as [Hlt|Hge].
-  - destruct (eff tau it). cbn. lia.
+  - destruct (eff tau errdelay it). cbn. lia.
   - destruct (pop_min fl) as [[m r]|] eqn:E.
-    + destruct (eff tau it). cbn. apply pop_min_length in E. lia.
+    + destruct (eff tau errdelay it). cbn. apply pop_min_length in E. lia.
     + destruct fl; [cbn in *; lia|]. cbn in E. destruct (pop_min fl) as [[? ?]|]; [destruct (z <=? z0)|]; discriminate.
 Qed.
 
 Theorem in_flight_never_exceeds_limit its :
   forall now fl, (length fl <= limit)%nat ->
   Forall (fun k => (k <= limit)%nat)
-         ((fix go st its := match its with [] => [] | it :: r => let st' := fst (intake limit tau st it) in length (snd st') :: go st' r end) (now, fl) its).
+         ((fix go st its := match its with [] => [] | it :: r => let st' := fst (intake limit tau errdelay st it) in length (snd st') :: go st' r end) (now, fl) its).
 Proof.
   induction its as [|it r IH]; intros now fl H; [constructor|].
   constructor.
   - apply intake_bound. exact H.
-  - destruct (fst (intake limit tau (now, fl) it)) as [now' fl'] eqn:E.
+  - destruct (fst (intake limit tau errdelay (now, fl) it)) as [now' fl'] eqn:E.
     apply IH. pose proof (intake_bound now fl it H) as B. rewrite E in B. exact B.
 Qed.
 
@@ -87,11 +88,11 @@ Proof. induction l as [|a l IH]; cbn; intros H; [contradiction|]. destruct H as 
 Lemma filter_all_length {A} (f : A -> bool) l : (forall x, In x l -> f x = true) -> length (filter f l) = length l.
 Proof. induction l as [|a l IH]; intros H; [reflexivity|]. cbn. rewrite (H a) by now left. cbn. f_equal. apply IH. intros x Hx. apply H. now right. Qed.
 
-Theorem close_waits_for_everything_when_sequential tau its t_close :
-  let ds := run 1 tau its in
+Theorem close_waits_for_everything_when_sequential tau errdelay its t_close :
+  let ds := run 1 tau errdelay its in
   done_at ds (t_drop 1 ds t_close) = length its.
 Proof.
-  cbn zeta. set (ds := run 1 tau its).
+  cbn zeta. set (ds := run 1 tau errdelay its).
   assert (Hlen : length ds = length its) by apply schedule_length.
   rewrite <- Hlen. unfold done_at.
   assert (All : forall d, In d ds -> iend d <= t_drop 1 ds t_close).
